@@ -81,8 +81,8 @@ def run(ctx):
                 add(1022, N, 12345, a, b, mopc=2, meta=('lin', a, b, 12345)); add(1023, N, 12345, a, b, mopc=3, meta=('lin', a, b, -12345))
             blds = ('optim', 'debug') if N <= 64 else ('optim',)
             add(6, N, 0, a, b, builds=blds, meta=('mul', a, b, None, 0))
-            if N >= 2: add(7, N, 0, a, b, builds=blds, meta=('mul', a, b, None, 0))
-            if N >= 2: add(10, N, 0, a, b, c, builds=blds, meta=('mul', a, b, c, 1)); add(11, N, 0, a, b, c, builds=blds, meta=('mul', a, b, c, -1))
+            add(7, N, 0, a, b, builds=blds, meta=('mul', a, b, None, 0))          # N = 1 included: the ring Z[X]/(X+1)
+            add(10, N, 0, a, b, c, builds=blds, meta=('mul', a, b, c, 1)); add(11, N, 0, a, b, c, builds=blds, meta=('mul', a, b, c, -1))
             for opc, f in ((0, 1), (1, -1)):
                 add(opc, N, 0, a, b, meta=('lin', a, b, f)); add(20 + opc, N, 0, a, b, mopc=opc, meta=('lin', a, b, f))
             for p in (0, 1, -1, -2**31, 2**31 - 1, rng.randrange(-2**31, 2**31)):
@@ -98,7 +98,7 @@ def run(ctx):
             for j in range(N):
                 a = [0] * N; b = [0] * N; a[i] = 1; b[j] = rng.choice([1, -1, 2**31 - 1, -2**31])
                 add(6, N, 0, a, b, meta=('mul', a, b, None, 0))
-                if N >= 2: add(7, N, 0, a, b, meta=('mul', a, b, None, 0))
+                add(7, N, 0, a, b, meta=('mul', a, b, None, 0))
     impl = {}
     for bld in ('optim', 'debug'):
         idx = [i for i, c in enumerate(cases) if c[2] == bld]
